@@ -134,6 +134,9 @@ func TestC04_Filters(t *testing.T) {
 		}
 		warmed := warmUp(t, db, cmds, q, opt)
 		path := rapid.SampledFrom([]string{"universal", "universal", "cached", "cached-delta", "cached-delta", "monitored", "legacy-pipeline", "cached-switch"}).Draw(t, "path")
+		if unencodable && rapid.Bool().Draw(t, "non-finite-on-cached-path") {
+			path = "cached-delta"
+		}
 		var res []database.SearchResult
 		switch path {
 		case "universal":
@@ -145,6 +148,27 @@ func TestC04_Filters(t *testing.T) {
 		case "cached-delta":
 			// warm the cache with the same query under other filter settings first
 			c := database.NewMonitoredDatabase(db)
+			if unencodable {
+				// every one-field toggle of the filter settings is asked first
+				for f := 0; f < 4; f++ {
+					w := opt
+					switch f {
+					case 0:
+						w.AllPlatforms = !w.AllPlatforms
+					case 1:
+						w.NoCrossPlatform = !w.NoCrossPlatform
+					case 2:
+						w.PipelineOnly = !w.PipelineOnly
+					case 3:
+						if len(w.Platforms) > 0 {
+							w.Platforms = nil
+						} else {
+							w.Platforms = []string{"windows", "macos", "linux"}
+						}
+					}
+					c.SearchWithOptionsAndCache(q, w)
+				}
+			}
 			for i := rapid.IntRange(1, 3).Draw(t, "warmups"); i > 0; i-- {
 				w := opt
 				if rapid.Bool().Draw(t, "w-one-field") {
